@@ -982,6 +982,22 @@ func execOp(e *Env, p *Prepared) (out Outcome) {
 			h.Write(b)
 		}
 		return Outcome{Class: "ok", Canon: hex.EncodeToString(h.Sum(nil)[:10])}
+	case "soak":
+		// the same (usually failing) call many times over: whatever a failure leaks - a counter, a
+		// depth, an entry in some list - accumulates on the shared object
+		n := 35 + int((p.Spec.ValSeed>>20)%40)
+		classes := map[string]int{}
+		var last Outcome
+		for i := 0; i < n; i++ {
+			q := *p
+			q.Spec.Kind = "encode"
+			last = execOp(e, &q)
+			classes[last.Class]++
+		}
+		if len(classes) > 1 {
+			return Outcome{Class: "error", Text: fmt.Sprintf("the same call repeated %d times did not keep giving the same kind of result: %v", n, classes)}
+		}
+		return last
 	case "walk":
 		msg := inputMsg(p)
 		if refl == nil {
@@ -1220,6 +1236,39 @@ func genWorkload(seed uint64, deep bool) *Workload {
 		n := 1 + rng.Intn(2)
 		for i := 0; i < n; i++ {
 			w.Warm = append(w.Warm, mkOp())
+		}
+	}
+	if len(badTypes) > 0 && rng.Bool(0.02) {
+		// a LONG history of failures on the shared object before (and while) the others work: a type
+		// whose first use fails, 35-75 times over, then its healthy relatives
+		bt := badTypes[rng.Intn(len(badTypes))]
+		soak := OpSpec{Kind: "soak", Type: bt.key(), ValSeed: rng.Uint64()}
+		if rng.Bool(0.6) {
+			w.Warm = append(w.Warm, soak)
+		} else {
+			w.Tasks = append(w.Tasks, []OpSpec{soak})
+		}
+		fields := bt.Desc.Fields()
+		var rel []OpSpec
+		for i := 0; i < fields.Len(); i++ {
+			if fd := fields.Get(i); fd.Kind() == protoreflect.MessageKind && !fd.IsMap() {
+				if ti := catByName[string(fd.Message().FullName())]; ti != nil && ti.Reflectable {
+					rel = append(rel, OpSpec{Kind: []string{"encode", "decode", "schema"}[rng.Intn(3)], Type: ti.key(), ValSeed: rng.Uint64()})
+				}
+			}
+		}
+		for _, n := range []string{"test.zzbad.v1.Good", "test.zzbad.v1.Mid"} {
+			if strings.HasPrefix(bt.Name, "test.zzbad.") {
+				rel = append(rel, OpSpec{Kind: "encode", Type: n, ValSeed: rng.Uint64()})
+			}
+		}
+		if len(rel) > 0 {
+			t := rng.Intn(len(w.Tasks))
+			w.Tasks[t] = append(w.Tasks[t], rel[rng.Intn(len(rel))])
+			if len(rel) > 1 {
+				t = rng.Intn(len(w.Tasks))
+				w.Tasks[t] = append(w.Tasks[t], rel[rng.Intn(len(rel))])
+			}
 		}
 	}
 	if rng.Bool(0.012) {
